@@ -8,5 +8,6 @@ mkdir -p "$VERIF_DIR/.build" "$VERIF_DIR/evidence" "$VERIF_DIR/replays"
 cp /repo/go.sum "$VERIF_DIR/harness/go.sum"
 cd "$VERIF_DIR/harness"
 go build -tags verif -o "$VERIF_DIR/.build/vcheck.setup" ./cmd/vcheck
-rm -f "$VERIF_DIR/.build/vcheck.setup"
+GOARCH=386 go build -tags verif -o "$VERIF_DIR/.build/vcheck.setup.386" ./cmd/vcheck
+rm -f "$VERIF_DIR/.build/vcheck.setup" "$VERIF_DIR/.build/vcheck.setup.386"
 echo "setup ok"
